@@ -172,10 +172,15 @@ func (e *Engine) callStatic(fr *Frame, st *State, fn *ssa.Function, binds []Val,
 		return e.applyContract(fr, st, c, fn, sig, args, pos)
 	}
 	// closures and synthetic wrappers are part of the text of their parent
-	if fn.Parent() != nil || fn.Synthetic != "" && len(fn.Blocks) > 0 {
+	isInstance := fn.Origin() != nil && fn.Origin() != fn
+	if fn.Parent() != nil || fn.Synthetic != "" && !isInstance && len(fn.Blocks) > 0 {
 		return e.inline(fr, st, fn, binds, args, pos)
 	}
-	inModule := fn.Pkg != nil && e.inModule(fn.Pkg.Pkg.Path())
+	pkgOf := fn.Pkg
+	if pkgOf == nil && isInstance {
+		pkgOf = fn.Origin().Pkg
+	}
+	inModule := pkgOf != nil && e.inModule(pkgOf.Pkg.Path())
 	if len(fn.Blocks) > 0 && inModule {
 		if fr.spec || e.smallEnough(fn) && fr.depth < e.MaxInline {
 			return e.inline(fr, st, fn, binds, args, pos)
@@ -183,7 +188,7 @@ func (e *Engine) callStatic(fr *Frame, st *State, fn *ssa.Function, binds []Val,
 		return e.conservativeCall(fr, st, fn, args, pos)
 	}
 	// library function without a model
-	if fn.Pkg != nil && purePkgs[fn.Pkg.Pkg.Path()] || fn.Pkg == nil && fn.Origin() != nil && fn.Origin().Pkg != nil && purePkgs[fn.Origin().Pkg.Pkg.Path()] {
+	if pkgOf != nil && purePkgs[pkgOf.Pkg.Path()] {
 		return e.pureLibCall(fr, st, fn, full, args)
 	}
 	if valueOnly(sig) {
@@ -340,6 +345,30 @@ func (e *Engine) clauseFunc(c *Contract, cl *Clause) *ssa.Function {
 func calleeLabel(c *Contract) string { return c.Key }
 
 func (e *Engine) applyContract(fr *Frame, st *State, c *Contract, fn *ssa.Function, sig *types.Signature, args []Val, pos token.Pos) Val {
+	if fn != nil && fn.Origin() != nil && len(fn.TypeArgs()) > 0 {
+		// generic callee: spec functions are evaluated with the instance's type arguments
+		m := map[*types.TypeParam]types.Type{}
+		tps := fn.Origin().TypeParams()
+		for i := 0; i < tps.Len() && i < len(fn.TypeArgs()); i++ {
+			m[tps.At(i)] = fn.TypeArgs()[i]
+		}
+		wrap := e.newFrame(fr.fn, fr)
+		wrap.vals = fr.vals
+		wrap.binds = fr.binds
+		wrap.spec = fr.spec
+		wrap.tsubst = m
+		wrap.contract = fr.contract
+		wrap.entry = fr.entry
+		wrap.params = fr.params
+		wrap.loopHead = fr.loopHead
+		wrap.blockPC = fr.blockPC
+		wrap.curBlock = fr.curBlock
+		wrap.condFrames = fr.condFrames
+		prev := e.cur
+		e.cur = wrap
+		defer func() { e.cur = prev }()
+		fr = wrap
+	}
 	if c.Extern || c.Trusted {
 		e.trust(fmt.Sprintf("assumed contract: %s (%s:%d)", c.Key, shortPath(c.File), c.Line))
 	}
